@@ -420,7 +420,7 @@ def parseCif (p : Prog) (maxFrameDepth : Int) (cif : Bool) (fuel : Nat) (s : St)
   else ((cifEndStep p cif st.1 st.2).1, (cifEndStep p cif st.1 st.2).2, [])
 
 /-- enough fuel for any token list: every loop iteration and every nested production consumes a token or ends -/
-def fuelFor (toks : List Tok) : Nat := 2 * toks.length + 8
+def fuelFor (toks : List Tok) : Nat := 4 * toks.length + 8
 
 /-- cif_parse on the token sequence of a document: all callbacks in order, the return value, the stored CIF -/
 def parseCB (p : Prog) (storing : Bool) (toks : List Tok) : List Ev × Int × Cif :=
